@@ -131,6 +131,12 @@ func (c cacheNode) SetWithExpireCtx(ctx context.Context, key string, val any,
 		return err
 	}
 
+	// a non-positive expire would write a key that never expires,
+	// fall back to the configured expiry instead.
+	if expire <= 0 {
+		expire = c.aroundDuration(c.expiry)
+	}
+
 	return c.rds.SetexCtx(ctx, key, string(data), int(math.Ceil(expire.Seconds())))
 }
 
